@@ -61,13 +61,6 @@ def _no_leading_zero_after_first(text) -> bool:
     return True
 
 
-def _strip0(rel):
-    rel = list(rel)
-    while len(rel) > 1 and rel[-1] == 0:
-        rel.pop()
-    return rel
-
-
 def pep440_same(vals, tag_i) -> bool:
     st = state(vals, tag_i)
     vinfo = version.V2VersionInfo(**st)
@@ -83,7 +76,7 @@ def pep440_same(vals, tag_i) -> bool:
     a, b = v._version, w._version
     if (a.epoch, a.pre, a.post, a.dev, a.local) != (b.epoch, b.pre, b.post, b.dev, b.local):
         return False
-    if _strip0(a.release) != _strip0(b.release) or w._key != v._key:
+    if w._key != v._key:     # the key holds the release numbers with trailing zeros stripped
         return False
     m = QRE.match(qtext)
     if m is None or len(m.group()) != len(qtext):
